@@ -60,6 +60,9 @@ type WriteFault struct {
 	Seq   int    `json:"seq,omitempty"`
 	OpID  int    `json:"op,omitempty"`
 	Limit int64  `json:"limit"`
+	// Restart: a clean restart follows as soon as one is allowed (what the step
+	// could not write is then missing from what the next start reads)
+	Restart bool `json:"restart,omitempty"`
 }
 
 type Plan struct {
@@ -88,7 +91,7 @@ type Plan struct {
 	Loopback   bool         `json:"loopback,omitempty"` // C20: a PCAP-over-IP endpoint served over a real loopback socket (not replayable)
 	NoOracle   bool         `json:"no_oracle,omitempty"`
 	Yield      bool         `json:"yield,omitempty"` // gates inside the converter job: other steps may run between two rounds of conversions
-	Poip       bool         `json:"poip,omitempty"` // C20: packets fed to the PCAP-over-IP handler (not replayable)
+	Poip       bool         `json:"poip,omitempty"`  // C20: packets fed to the PCAP-over-IP handler (not replayable)
 	// weights for the scheduler (per mille): probability to prefer a
 	// background step over an API step when both are enabled
 	BgBias int `json:"bg_bias"`
@@ -765,6 +768,12 @@ func Gen(prop, tier string, seed, run uint64) Plan {
 		// the tag graph must stay well-formed (atomicity of that one call is not judged)
 		o := p.Ops[len(impOps)+r.IntN(len(mutOps))]
 		p.WriteFail = append(p.WriteFail, WriteFault{Kind: "api", OpID: o.ID, Limit: []int64{1, 16, 100}[r.IntN(3)]})
+	}
+	if prop == "C08" && r.IntN(4) == 0 {
+		// the disk is full while the completion of an import saves the state file
+		// (the index file is written, the saved list of captures is not), restart,
+		// further imports: the result must still be that of a one-shot import
+		p.WriteFail = append(p.WriteFail, WriteFault{Kind: "post-import", Seq: r.IntN(3), Limit: 1, Restart: true})
 	}
 	if prop == "C11" && len(p.WriteFail) == 0 && r.IntN(4) == 0 {
 		// the calls must stay total and the graph well-formed on a restarted service too
